@@ -252,7 +252,8 @@ PROPS["C08"] = dict(
                 "equal arguments, results must equal the local results, and an induced error or panic must reach the caller as an error carrying the same message. Unknown names must "
                 "reach the missing-method handler when installed and be an error otherwise. The catalogue includes context-taking functions with interface, variadic, map and pointer "
                 "parameters (nil arguments) and names whose cased letters are not ASCII; one sub-check sends several calls of different functions through one caller context; "
-                "another has 2-12 callers on one client at once behind a one-worker pool."),
+                "another has 2-12 callers on one client at once behind a one-worker pool. The same differential is run in the provider direction: the catalogue published on a "
+                "reverse Provider and called from the service side through Caller proxies and Caller.InvokeContext over tcp, unix, websocket and http."),
     level_note="The http client transport is net/http by default; the shard set with VERIF_HTTP_CLIENT=fasthttp uses the fasthttp client transport (the scheme registry is process-global).",
     rule=("remote-vs-local: rapid-drawn calls; non-trivial = at least one non-zero argument. Classes: transport x outcome (ok/error/panic), mode (proxy/invoke/ns), pool, function. "
           "missing-method: generated unknown names x handler installed or not. Distinct by case text."),
@@ -272,12 +273,12 @@ PROPS["C09"] = dict(
                 "wrap the 15-bit identifier and a second pending call is issued; both must get their own response in either release order. (d) Reverse calls: concurrent "
                 "Caller.InvokeContext against a real provider with gated functions (some of which panic or fail with a message naming the call), and against a scripted provider returning results in generated batches with unknown and "
                 "repeated identifiers; and a forced interleaving (verif yield point in Caller.begin) in which calls are queued exactly while the provider's begin is between its queue "
-                "check and its registration. (e) Websocket connection churn (both servers): short-lived connections ended by the server or abandoned by the client while slow calls are "
+                "check and its registration; and sequences of reverse calls separated by pauses around and beyond the caller's idle time-out, where the provider must keep serving and no call may be lost in the hand-over between two begins. (e) Websocket connection churn (both servers): short-lived connections ended by the server or abandoned by the client while slow calls are "
                 "being answered, 8 at a time. One extra process per run executes (e) and the concurrent-caller sub-checks from a race-detector build, so a connection whose buffers are "
                 "still in use when the server recycles them, or any other unsynchronised access on these paths, is reported."),
     level_note="Completion order is controlled by the harness (gates inside the service function, scripted peers); the interleaving of the callers' registrations is left to the Go scheduler and sampled.",
     rule=("real-service / reverse-provider: rapid-drawn (endpoint, callers, completion order); all non-trivial (>= 2 concurrent calls). scripted-peer / reverse-scripted: non-trivial = the script contains "
-          "at least one stray or duplicate. udp-wrap: fixed scenarios x pool x release order. reverse-forced: transport x earlier calls x calls in the window, all non-trivial. Distinct by case text."),
+          "at least one stray or duplicate. udp-wrap: fixed scenarios x pool x release order. reverse-forced: transport x earlier calls x calls in the window, all non-trivial. reverse-idle: non-trivial = at least one pause reaches the idle time-out. Distinct by case text."),
     assumptions=["loopback networking and unix sockets are available", "identifier reuse by a stale response arriving after 32768 further calls on UDP is outside the protocol's reach and not generated"],
     quick=dict(shards=4, timeout=900, race_run="^(TestWSChurn|TestRealService|TestScriptedPeer)$"),
     thorough=dict(shards=16, timeout=3000, race_run="^(TestWSChurn|TestRealService|TestScriptedPeer|TestReverseProvider|TestReverseScripted)$"),
